@@ -5,7 +5,7 @@
 (* action binds the logged fields and evaluates the property rules of       *)
 (* DESIGN.md Appendix B against the Ref layer.                              *)
 (***************************************************************************)
-EXTENDS TraceBase, Header
+EXTENDS TraceBase, Header, Codes
 
 VARIABLES l          \* index of the next event to consume
 vars == <<l>>
@@ -65,6 +65,55 @@ TraceFlagOps ==
        Rule(l, "FlagAlgebra", FlagOpOK(Ev.a, Ev.ops[i]), <<"a", Ev.a, "op", Ev.ops[i]>>)
 
 -----------------------------------------------------------------------------
+(* C18: code conversions.  One event = 256 consecutive codes c0 .. c0+255;   *)
+(* e.r[i] = <<typeBack, typeNamed, classBack, qtypeBack, qclassBack>> where  *)
+(* xBack = the u16 obtained by converting back, or -1 if conversion failed.  *)
+CodeConvOK(c, r) ==
+  /\ r[1] = c
+  /\ r[2] = (c \in SupportedTypes)
+  /\ r[3] = IF c \in SupportedClasses THEN c ELSE -1
+  /\ r[4] = IF QTypeSupported(c) THEN c ELSE -1
+  /\ r[5] = IF QClassSupported(c) THEN c ELSE -1
+
+TraceCodeConv ==
+  /\ Ev.ev = "CodeConv"
+  /\ \A i \in 1 .. Len(Ev.r) :
+       Rule(l, "CodeTables", CodeConvOK(Ev.c0 + i - 1, Ev.r[i]), <<"code", Ev.c0 + i - 1, Ev.r[i]>>)
+
+(* mnemonics: e.m = sequence of <<table, name, code>> *)
+MnemonicOK(m) ==
+  CASE m[1] = "TYPE" -> m[2] \in DOMAIN TypeTable /\ TypeTable[m[2]] = m[3]
+    [] m[1] = "QTYPE" -> m[2] \in DOMAIN QTypeTable /\ QTypeTable[m[2]] = m[3]
+    [] m[1] = "CLASS" -> m[2] \in DOMAIN ClassTable /\ ClassTable[m[2]] = m[3]
+    [] m[1] = "QCLASS" -> m[2] = "ANY" /\ m[3] = 255
+    [] OTHER -> FALSE
+
+TraceMnemonics ==
+  /\ Ev.ev = "Mnemonics"
+  /\ \A i \in 1 .. Len(Ev.m) : Rule(l, "CodeTables", MnemonicOK(Ev.m[i]), Ev.m[i])
+  \* every mnemonic of the tables was reported (the crate names all of them)
+  /\ Rule(l, "CodeTables",
+          {Ev.m[i][2] : i \in {j \in 1 .. Len(Ev.m) : Ev.m[j][1] = "TYPE"}} = DOMAIN TypeTable,
+          "type-mnemonic-set")
+
+(* matching: e.t = record type code, e.reported = u16 of the reported type,  *)
+(* e.canon = reported type value equals the value the code converts to,     *)
+(* e.q[i] = <<qtype code, matched>>                                          *)
+TraceMatchType ==
+  /\ Ev.ev = "MatchType"
+  /\ Rule(l, "MatchMatrix", Ev.reported = Ev.t /\ Ev.canon, <<"reported-type", Ev.t, Ev.how>>)
+  /\ \A i \in 1 .. Len(Ev.q) :
+       Rule(l, "MatchMatrix",
+            MatchDefined(Ev.q[i][1]) => (Ev.q[i][2] = MatchQType(Ev.t, Ev.q[i][1])),
+            <<"t", Ev.t, "q", Ev.q[i], Ev.how>>)
+
+(* e.c = class code of the record, e.q[i] = <<qclass code, matched>> *)
+TraceMatchClass ==
+  /\ Ev.ev = "MatchClass"
+  /\ \A i \in 1 .. Len(Ev.q) :
+       Rule(l, "MatchMatrix", Ev.q[i][2] = MatchQClass(Ev.c, Ev.q[i][1]), <<"class", Ev.c, Ev.q[i], Ev.how>>)
+
+-----------------------------------------------------------------------------
 Init == l = 1
 
 Next == /\ l <= Len(Rec)
@@ -72,6 +121,7 @@ Next == /\ l <= Len(Rec)
         /\ \/ TraceHdrWords
            \/ TraceHdrBuilds
            \/ TraceFlagOps
+           \/ TraceCodeConv \/ TraceMnemonics \/ TraceMatchType \/ TraceMatchClass
 
 Spec == Init /\ [][Next]_vars
 
